@@ -115,6 +115,12 @@ def identical(a, b):
         return mk_bool(a.z == b)
     if isinstance(b, SBool) and isinstance(a, bool):
         return mk_bool(b.z == a)
+    # True / False are singletons: a value of another kind is never identical to them
+    for x, y in ((a, b), (b, a)):
+        if isinstance(x, bool) and isinstance(y, (SInt, SStr, SFloat, SBytes, str, float, bytes, tuple)):
+            return False
+        if isinstance(x, bool) and isinstance(y, int) and not isinstance(y, bool):
+            return False
     if isinstance(a, type) or isinstance(b, type):
         return a is b
     if isinstance(a, bool) != isinstance(b, bool) and not isinstance(a, Sym) and not isinstance(b, Sym):
